@@ -44,3 +44,34 @@ Theorem C07_expected_cached_verifies :
                 exp_root_indexes HO (mk_ctx HO s) hs = Some idx.
 Proof. exact cached_verifies. Qed.
 Print Assumptions C07_expected_cached_verifies.
+
+(** ** The Go algorithm (mirror Model/ProofUpdate.v of the Go method Proof.Update, compared with the code on
+    every call) computes the expected cached proof: proved for every ADDITION-ONLY block - any forest
+    (dead slots, empty roots written over, row growth), any cached set, any remember pattern
+    (Proofs/ProofUpdateSpec.v).  For blocks with deletions the same statement is checked by
+    computation there ([pu_g0_exhaustive_4]: all 19,375 cases on 4 slots, [pu_g0_large]) and by the
+    correspondence run; its proof is open. *)
+From Utreexo Require Import Model.ProofUpdate Proofs.StumpDelData Proofs.ProofUpdateSpec.
+From Coq Require Import Sorted.
+
+Theorem C07_update_addition_blocks :
+  forall (H : Type) (HO : ops H), ops_ok HO ->
+  (forall a b, NZ HO (op_hash2 HO a b)) ->
+  forall (s : slots H) (adds : list H),
+  (forall h, In (Some h) s -> NZ HO h) ->
+  N.of_nat (length s + length adds) <= 2 ^ 63 ->
+  NoDup (live (s ++ map Some adds)) ->
+  forall (C : list H) (rem : list N),
+  NoDup C -> StronglySorted N.lt rem ->
+  (forall x, In x (layout HO (s ++ map Some adds)) -> nleaf x = false -> ~ In (nhash x) (pick adds rem)) ->
+  forall hC tC pC, exp_cached HO (mk_ctx HO s) C = Some (hC, tC, pC) ->
+  proof_update HO tC pC hC adds [] rem (ud_of_spec (spec_update_data HO s [] adds))
+  = exp_cached HO (mk_ctx HO (apply_block HO s [] adds)) (C ++ pick adds rem) /\
+  exp_cached HO (mk_ctx HO (apply_block HO s [] adds)) (C ++ pick adds rem) <> None.
+Proof. exact proof_update_add_only. Qed.
+Print Assumptions C07_update_addition_blocks.
+
+(** the full statement (blocks with deletions), decided by computation on every state of 4 slots *)
+Theorem C07_update_all_blocks_4_slots : pu_failures 4 4 = [].
+Proof. exact pu_g0_exhaustive_4. Qed.
+Print Assumptions C07_update_all_blocks_4_slots.
